@@ -27,7 +27,22 @@ mouse_event, a public mutator of a node addressed by its index in walk order of 
 of the node mutated last ("again") or of the j-th ListBox / j-th probe of the tree ("lb", "probe"), drop+gc) is
 applied to A and then to B.  ListBox nodes also take the size-aware public methods change_focus / shift_focus /
 make_cursor_visible (any documented offset, also for the position that already has the focus), scrolling keys
-and wheel events directly, with the size their latest render() call was given in the always-fresh world.  After every op the root is rendered in both worlds at the
+and wheel events directly, with the size their latest render() call was given in the always-fresh world.
+
+One operation, every public spelling: where urwid offers several documented ways to perform the same change, the
+mutator entry performs it through any of them (op argument a: a % table length picks the operation, a // table
+length the spelling) - the set_x() method, the writable property (text.align = / .wrap =, edit_text =, edit_pos =,
+state =, current =, attr_map = / focus_map =, attr = / focus_attr =), the combined setter (Text.set_layout(align, wrap
+[, layout]) with the other mode unchanged; AttrWrap.set_attr_map for set_attr) and the backwards-compatibility
+aliases urwid still ships (they emit DeprecationWarning and delegate: AttrWrap.w = / set_w, Filler.body = / set_body,
+BoxAdapter.box_widget =, Frame.set_header/set_body/set_footer/set_focus, Pile/Columns/GridFlow set_focus(int |
+widget), focus_item =, focus_col = / set_focus_column, focus_cell =, and item assignment through the self-writing
+legacy lists widget_list / cells).  Whole-object setters are operations of their own: Text.set_layout(align, wrap,
+layout) with both modes new and a layout object (None = shared default, another StandardTextLayout, a user subclass
+as docs/manual/textlayout.rst describes), contents = <rotated item list> on Pile/Columns/GridFlow, ListBox.body = <new
+walker of the same class | plain list> over the rotated items, BarGraph.set_segment_attributes.
+
+After every op the root is rendered in both worlds at the
 current view (size, focus) and compared:
 
   content-differs   same cols/rows and the same rows of (attr, charset, bytes) runs (adjacent runs with
@@ -90,14 +105,19 @@ RULE = (
     "(A cached / B with CanvasCache.fetch+store patched out). Ops: view(size index, focus); render / rows of "
     "any live node at a recurring size; keypress (16 keys) and mouse press (buttons 1/4/5, any cell) on the "
     "root; public mutation of the node at index n (walk order of the live tree) chosen from that class's "
-    "mutators (or, op 'again', of the node mutated last): Text set_text (incl. '')/set_align_mode/set_wrap_mode, "
+    "mutators (or, op 'again', of the node mutated last), each performed through any of its documented public spellings "
+    "(a // table length: set_x() method | writable property | combined setter | backwards-compatibility alias that still "
+    "ships, e.g. align= / set_layout(align, same wrap, same layout), edit_text=, state=, current=, attr_map=, AttrWrap.w=/set_w, "
+    "Filler.body=/set_body, BoxAdapter.box_widget=, Frame.set_header/set_body/set_footer/set_focus, container set_focus(int|widget)/"
+    "focus_item=/focus_col=/set_focus_column/focus_cell=, widget_list[i]= / cells[i]=): Text set_text (incl. '')/set_align_mode/"
+    "set_wrap_mode/set_layout(align, wrap[, None | StandardTextLayout() | user layout subclass]), "
     "Edit set_caption/set_edit_text/set_edit_pos/insert_text/set_mask, IntEdit, Button.set_label, CheckBox/RadioButton set_state/toggle_state/set_label, "
-    "ProgressBar set_completion/done, BarGraph set_data/set_bar_width, BigText set_text/set_font, AttrMap "
+    "ProgressBar set_completion/done, BarGraph set_data/set_bar_width/set_segment_attributes, BigText set_text/set_font, AttrMap "
     "set_attr_map/set_focus_map, AttrWrap set_attr/set_focus_attr, LineBox.set_title, Padding align=/width=, "
     "original_widget= on every decoration, Pile/Columns/GridFlow contents insert/delete/assign/options + "
-    "focus_position=, GridFlow.cell_width=, Frame header/body/footer=/focus_position=, Overlay contents[0]/[1]= "
-    "and set_overlay_parameters, ListBox set_focus/set_focus_valign/focus_position=, walker insert/delete/"
-    "replace, change_focus/shift_focus/make_cursor_visible/scroll keys/wheel at the size it was last rendered with "
+    "focus_position= + contents= (whole list, rotated), GridFlow.cell_width=, Frame header/body/footer=/focus_position=, Overlay contents[0]/[1]= "
+    "and set_overlay_parameters, ListBox set_focus/set_focus_valign/focus_position=/body= (new walker or plain list over "
+    "the rotated items), walker insert/delete/replace, change_focus/shift_focus/make_cursor_visible/scroll keys/wheel at the size it was last rendered with "
     "(ops 'lb'/'probe' address the j-th ListBox / probe), probe set_value, Scrollable.set_scrollpos, ScrollBar side/width; drop all held canvases + gc.collect(1). ~20% of "
     "the ops are not followed by the comparison render; 1 in 7 list elements is a correlated pattern (change "
     "without redraw / other view / change again; view A, view B, change, view A; three changes of one widget). "
@@ -113,6 +133,9 @@ ASSUMPTIONS = [
     "CanvasCache.fetch/store are the only entry points through which widgets read/fill the cache (patched from "
     "outside for world B; invalidate/cleanup stay real)",
     "content is compared as rows of merged (attr, charset, bytes) runs; no width table is needed",
+    "the alternative spellings are the ones urwid itself documents or still ships as deprecation shims (DeprecationWarning "
+    "is recorded and ignored); the user text layout (StandardTextLayout subclass swapping left/right) is pure and stateless, "
+    "as the manual requires of a layout object",
     "a history in which urwid emits WidgetWarning (unsupported sizing combination) is mis-built and discarded; an "
     "op raising the same exception type in both worlds ends the history without verdict; a FAILING history in which "
     "a widget was handed a size with no room for its borders/margins or a dimension < 1 (gen_widgets.starved, as "
@@ -134,6 +157,19 @@ ALIGNS = ["left", "center", "right"]
 WRAPS = ["space", "any", "clip", "ellipsis"]
 VALIGNS = ["top", "middle", "bottom", ("relative", 25), ("relative", 80)]
 FONTS = ["Thin3x3Font", "HalfBlock5x4Font", "Thin6x6Font"]
+
+
+class MirrorLayout(urwid.StandardTextLayout):
+    """a user text layout object (docs/manual/textlayout.rst, "Custom Text Layouts"; Text.set_layout's third
+    argument): StandardTextLayout with left and right alignment swapped - pure, stateless"""
+
+    def layout(self, text, width, align, wrap):
+        return super().layout(text, width, {"left": "right", "right": "left"}.get(align, align), wrap)
+
+
+# layout argument of Text.set_layout(): None (the shared default), another StandardTextLayout instance, a user layout
+LAYOUTS = [None, urwid.StandardTextLayout(), MirrorLayout()]
+LAYOUT_NAMES = ["None", "StandardTextLayout()", "MirrorLayout()"]
 
 
 def _count(label, n=1):
@@ -484,50 +520,120 @@ def _dim(t, n):
     return "pack" if t == PACK else (n if t == GIVEN else ("relative", n))
 
 
-def mutators(w, mode, ser, enc, build, shown_size=None):
+def mutators(w, mode, ser, enc, build, shown_size=None, spell=None):
     """build(slot, k) -> new widget for a slot of that sizing mode; shown_size: the size this node was handed by
-    its latest render() call in the always-fresh world (both twins are given the same one)"""
+    its latest render() call in the always-fresh world (both twins are given the same one); spell: {"v": n} chooses,
+    when the chosen entry is called, among the documented public spellings of that one operation (method /
+    writable property / combined setter / backwards-compatibility alias that urwid still ships; 0 = the first
+    one listed) and receives the name of the spelling used under "used" """
     M = []
+    spell = {"v": 0} if spell is None else spell
 
     def add(name, fn):
         M.append((name, fn))
 
-    def replace_child(name, setter):
+    def alt(*spellings):
+        """(name, thunk) pairs that perform the same operation: call the one selected by spell["v"]"""
+        name, thunk = spellings[spell["v"] % len(spellings)]
+        spell["used"] = name
+        thunk()
+        return name
+
+    def text_layout_mutators(wraps):
+        # align / wrap: the method, the writable property, and Text.set_layout(), the documented all-at-once setter
+        def set_align(b, c):
+            m = ALIGNS[b % 3]
+            return alt(("set_align_mode", lambda: w.set_align_mode(m)),
+                       ("align=", lambda: setattr(w, "align", m)),
+                       ("set_layout", lambda: w.set_layout(m, w.wrap, w.layout))) + f" {m}"
+
+        def set_wrap(b, c):
+            m = wraps[b % len(wraps)]
+            return alt(("set_wrap_mode", lambda: w.set_wrap_mode(m)),
+                       ("wrap=", lambda: setattr(w, "wrap", m)),
+                       ("set_layout", lambda: w.set_layout(w.align, m, w.layout))) + f" {m}"
+
+        def set_layout(b, c):
+            al, wr, k = ALIGNS[b % 3], wraps[(b // 3) % len(wraps)], c % len(LAYOUTS)
+            if spell["v"] % 2:
+                w.set_layout(al, wr)  # layout omitted: the shared default layout
+                return f"{al}, {wr}"
+            w.set_layout(al, wr, LAYOUTS[k])
+            return f"{al}, {wr}, {LAYOUT_NAMES[k]}"
+
+        return set_align, set_wrap, set_layout
+
+    def replace_child(name, setter, *aliases):
+        """aliases: (name, setter) of the backwards-compatibility spellings of original_widget= that urwid ships"""
         ch = kids(w, mode)
         if len(ch) == 1:
             slot = ch[0][1]
-            add(name, lambda b, c: (setter(build(slot, b)), f"new {slot} widget #{b}")[1])
+
+            def replace(b, c):
+                nw = build(slot, b)
+                return alt((name, lambda: setter(nw)), *[(n2, (lambda f: lambda: f(nw))(f2)) for n2, f2 in aliases]) + f" new {slot} widget #{b}"
+
+            add(name, replace)
+
+    def focus_mutator(n, *aliases):
+        """focus_position = i, or one of the older spellings: (name, fn(i, widget at i))"""
+        def set_focus_position(b, c):
+            if not n:
+                return None
+            i = b % n
+            child = w.contents[i][0] if aliases else None
+            return alt(("focus_position=", lambda: setattr(w, "focus_position", i)),
+                       *[(n2, (lambda f: lambda: f(i, child))(f2)) for n2, f2 in aliases]) + f" {i}"
+
+        return set_focus_position
 
     if isinstance(w, urwid.Edit):
         if isinstance(w, urwid.IntEdit):
             add("set_edit_text", lambda b, c: (w.set_edit_text(str((b * 37 + ser) % 10 ** (1 + c % 5))), "digits")[1])
         else:
-            add("set_edit_text", lambda b, c: (w.set_edit_text(payload_text(b, ser, enc)), repr(payload_text(b, ser, enc)))[1])
+            def set_edit_text(b, c):
+                t = payload_text(b, ser, enc)
+                return alt(("set_edit_text", lambda: w.set_edit_text(t)), ("edit_text=", lambda: setattr(w, "edit_text", t))) + f" {t!r}"
+
+            add("set_edit_text", set_edit_text)
             add("insert_text", lambda b, c: (w.insert_text(payload_text(b, ser, enc, newlines=False)), "")[1])
             add("set_mask", lambda b, c: (w.set_mask([None, "*"][b % 2]), repr([None, "*"][b % 2]))[1])
         add("set_caption", lambda b, c: (w.set_caption(payload_markup(b, ser, enc)), repr(payload_markup(b, ser, enc)))[1])
-        add("set_edit_pos", lambda b, c: (w.set_edit_pos(b % (len(w.edit_text) + 1)), str(b % (len(w.edit_text) + 1)))[1])
-        add("set_align_mode", lambda b, c: (w.set_align_mode(ALIGNS[b % 3]), ALIGNS[b % 3])[1])
-        add("set_wrap_mode", lambda b, c: (w.set_wrap_mode(WRAPS[b % 3]), WRAPS[b % 3])[1])
+
+        def set_edit_pos(b, c):
+            p = b % (len(w.edit_text) + 1)
+            return alt(("set_edit_pos", lambda: w.set_edit_pos(p)), ("edit_pos=", lambda: setattr(w, "edit_pos", p))) + f" {p}"
+
+        set_align, set_wrap, set_layout = text_layout_mutators(WRAPS[:3])
+        add("set_edit_pos", set_edit_pos)
+        add("set_align_mode", set_align)
+        add("set_wrap_mode", set_wrap)
+        add("set_layout", set_layout)
     elif isinstance(w, urwid.Text):  # Text, SelectableIcon
         add("set_text", lambda b, c: (w.set_text(payload_markup(b, ser, enc)), repr(payload_markup(b, ser, enc)))[1])
         add("set_text", lambda b, c: (w.set_text(payload_markup(b + 1, ser, enc)), repr(payload_markup(b + 1, ser, enc)))[1])
         add("set_text", lambda b, c: (w.set_text(""), "''")[1])
-        add("set_align_mode", lambda b, c: (w.set_align_mode(ALIGNS[b % 3]), ALIGNS[b % 3])[1])
-        add("set_wrap_mode", lambda b, c: (w.set_wrap_mode(WRAPS[b % 4]), WRAPS[b % 4])[1])
+        set_align, set_wrap, set_layout = text_layout_mutators(WRAPS)
+        add("set_align_mode", set_align)
+        add("set_wrap_mode", set_wrap)
+        add("set_layout", set_layout)
     elif isinstance(w, urwid.RadioButton):
-        add("set_state", lambda b, c: (w.set_state(bool(b % 2)), str(bool(b % 2)))[1])
+        add("set_state", lambda b, c: alt(("set_state", lambda: w.set_state(bool(b % 2))), ("state=", lambda: setattr(w, "state", bool(b % 2)))) + f" {bool(b % 2)}")
         add("toggle_state", lambda b, c: (w.toggle_state(), "")[1])
         add("set_label", lambda b, c: (w.set_label(payload_markup(b, ser, enc)), repr(payload_markup(b, ser, enc)))[1])
     elif isinstance(w, urwid.CheckBox):
         st3 = [True, False, "mixed"]
-        add("set_state", lambda b, c: (w.set_state(st3[b % 3]), repr(st3[b % 3]))[1])
+        add("set_state", lambda b, c: alt(("set_state", lambda: w.set_state(st3[b % 3])), ("state=", lambda: setattr(w, "state", st3[b % 3]))) + f" {st3[b % 3]!r}")
         add("toggle_state", lambda b, c: (w.toggle_state(), "")[1])
         add("set_label", lambda b, c: (w.set_label(payload_markup(b, ser, enc)), repr(payload_markup(b, ser, enc)))[1])
     elif isinstance(w, urwid.Button):
         add("set_label", lambda b, c: (w.set_label(payload_markup(b, ser, enc)), repr(payload_markup(b, ser, enc)))[1])
     elif isinstance(w, urwid.ProgressBar):
-        add("set_completion", lambda b, c: (w.set_completion((b * 7 + ser) % 131 - 10), str((b * 7 + ser) % 131 - 10))[1])
+        def set_completion(b, c):
+            v = (b * 7 + ser) % 131 - 10
+            return alt(("set_completion", lambda: w.set_completion(v)), ("current=", lambda: setattr(w, "current", v))) + f" {v}"
+
+        add("set_completion", set_completion)
 
         def set_done(b, c):
             w.done = [100, 1, 7, 50][b % 4]
@@ -542,6 +648,17 @@ def mutators(w, mode, ser, enc, build, shown_size=None):
 
         add("set_data", set_data)
         add("set_bar_width", lambda b, c: (w.set_bar_width([None, 1, 2][b % 3]), repr([None, 1, 2][b % 3]))[1])
+
+        def set_segment_attributes(b, c):
+            # background + two segments (the graphs are built with two-segment data), plain attributes or
+            # (attribute, fill character); optional hline attributes and smoothing attributes
+            att = [["a1", "a2", "hl"], ["hl", "a1", "a2"], [("m1", "."), "a2", ("hl", "#")], ["m2", ("a1", "x"), "m1"]][b % 4]
+            hatt = [None, ["m1"], ["m2", "a1", "a2"]][c % 3]
+            satt = [None, {(1, 0): "m1", (2, 0): "m2"}][(c // 3) % 2]
+            w.set_segment_attributes(list(att), hatt, satt)
+            return f"{att!r}, {hatt!r}, {satt!r}"
+
+        add("set_segment_attributes", set_segment_attributes)
     elif isinstance(w, urwid.BigText):
         add("set_text", lambda b, c: (w.set_text(str((ser * 7 + b) % 1000)), str((ser * 7 + b) % 1000))[1])
         add("set_font", lambda b, c: (w.set_font(getattr(urwid, FONTS[b % 3])()), FONTS[b % 3])[1])
@@ -551,13 +668,31 @@ def mutators(w, mode, ser, enc, build, shown_size=None):
         add("set_value", lambda b, c: (w.set_value(f"{ser}v{b}", 1 + c % 4), f"{ser}v{b}, rows={1 + c % 4}")[1])
         add("set_value", lambda b, c: (w.set_value(f"{ser}w{b}"), f"{ser}w{b}")[1])
     elif isinstance(w, urwid.AttrWrap):
-        add("set_attr", lambda b, c: (w.set_attr(T.ATTRS[b % 3]), T.ATTRS[b % 3])[1])
-        add("set_focus_attr", lambda b, c: (w.set_focus_attr([None, *T.ATTRS][b % 4]), repr([None, *T.ATTRS][b % 4]))[1])
-        replace_child("original_widget=", lambda nw: setattr(w, "original_widget", nw))
+        def set_attr(b, c):
+            v = T.ATTRS[b % 3]
+            return alt(("set_attr", lambda: w.set_attr(v)), ("attr=", lambda: setattr(w, "attr", v)),
+                       ("set_attr_map", lambda: w.set_attr_map({None: v})), ("attr_map=", lambda: setattr(w, "attr_map", {None: v}))) + f" {v}"
+
+        def set_focus_attr(b, c):
+            v = [None, *T.ATTRS][b % 4]
+            return alt(("set_focus_attr", lambda: w.set_focus_attr(v)), ("focus_attr=", lambda: setattr(w, "focus_attr", v))) + f" {v!r}"
+
+        add("set_attr", set_attr)
+        add("set_focus_attr", set_focus_attr)
+        replace_child("original_widget=", lambda nw: setattr(w, "original_widget", nw),
+                      ("w=", lambda nw: setattr(w, "w", nw)), ("set_w", lambda nw: w.set_w(nw)))
     elif isinstance(w, urwid.AttrMap):
         maps = [{None: "m1"}, {None: "a2", "a1": "m2"}, {"a1": "hl", "hl": "a1"}, {None: None}]
-        add("set_attr_map", lambda b, c: (w.set_attr_map(dict(maps[b % 4])), repr(maps[b % 4]))[1])
-        add("set_focus_map", lambda b, c: (w.set_focus_map([None, *maps][b % 5] and dict([None, *maps][b % 5])), repr([None, *maps][b % 5]))[1])
+        def set_attr_map(b, c):
+            v = dict(maps[b % 4])
+            return alt(("set_attr_map", lambda: w.set_attr_map(v)), ("attr_map=", lambda: setattr(w, "attr_map", v))) + f" {v!r}"
+
+        def set_focus_map(b, c):
+            v = [None, *maps][b % 5] and dict([None, *maps][b % 5])
+            return alt(("set_focus_map", lambda: w.set_focus_map(v)), ("focus_map=", lambda: setattr(w, "focus_map", v))) + f" {v!r}"
+
+        add("set_attr_map", set_attr_map)
+        add("set_focus_map", set_focus_map)
         replace_child("original_widget=", lambda nw: setattr(w, "original_widget", nw))
     elif isinstance(w, urwid.LineBox):
         if w.tline_widget:
@@ -595,7 +730,13 @@ def mutators(w, mode, ser, enc, build, shown_size=None):
         add("scrollbar_side=", set_side)
         add("scrollbar_width=", set_width)
         replace_child("original_widget=", lambda nw: setattr(w, "original_widget", nw))
-    elif isinstance(w, urwid.WidgetDecoration):  # Filler, BoxAdapter, WidgetPlaceholder, WidgetDisable, PopUpLauncher, PopUpTarget
+    elif isinstance(w, urwid.Filler):
+        replace_child("original_widget=", lambda nw: setattr(w, "original_widget", nw),
+                      ("body=", lambda nw: setattr(w, "body", nw)), ("set_body", lambda nw: w.set_body(nw)))
+    elif isinstance(w, urwid.BoxAdapter):
+        replace_child("original_widget=", lambda nw: setattr(w, "original_widget", nw),
+                      ("box_widget=", lambda nw: setattr(w, "box_widget", nw)))
+    elif isinstance(w, urwid.WidgetDecoration):  # WidgetPlaceholder, WidgetDisable, PopUpLauncher, PopUpTarget
         replace_child("original_widget=", lambda nw: setattr(w, "original_widget", nw))
     elif isinstance(w, G.Wrapped):
         pass
@@ -639,9 +780,11 @@ def mutators(w, mode, ser, enc, build, shown_size=None):
 
         add("contents.insert", insert)
         add("contents.delete", delete)
-        add("contents[i]=", lambda b, c: _assign(w, mode, cont, b, c, build))
+        add("contents[i]=", lambda b, c: _assign(w, mode, cont, b, c, build, alt, "widget_list"))
         add("contents.options", options)
-        add("focus_position=", lambda b, c: _set_focus_position(w, len(cont), b))
+        add("focus_position=", focus_mutator(len(cont), ("set_focus(int)", lambda i, cw: w.set_focus(i)), ("set_focus(widget)", lambda i, cw: w.set_focus(cw)),
+                                             ("focus_item=", lambda i, cw: setattr(w, "focus_item", cw))))
+        add("contents=", lambda b, c: _assign_all(w, cont, b))
     elif isinstance(w, urwid.Columns):
         cont = w.contents
 
@@ -684,9 +827,11 @@ def mutators(w, mode, ser, enc, build, shown_size=None):
 
         add("contents.insert", insert)
         add("contents.delete", delete)
-        add("contents[i]=", lambda b, c: _assign(w, mode, cont, b, c, build))
+        add("contents[i]=", lambda b, c: _assign(w, mode, cont, b, c, build, alt, "widget_list"))
         add("contents.options", options)
-        add("focus_position=", lambda b, c: _set_focus_position(w, len(cont), b))
+        add("focus_position=", focus_mutator(len(cont), ("set_focus(int)", lambda i, cw: w.set_focus(i)), ("set_focus(widget)", lambda i, cw: w.set_focus(cw)),
+                                             ("set_focus_column", lambda i, cw: w.set_focus_column(i)), ("focus_col=", lambda i, cw: setattr(w, "focus_col", i))))
+        add("contents=", lambda b, c: _assign_all(w, cont, b))
     elif isinstance(w, urwid.GridFlow):
         cont = w.contents
 
@@ -712,26 +857,28 @@ def mutators(w, mode, ser, enc, build, shown_size=None):
 
         add("contents.insert", insert)
         add("contents.delete", delete)
-        add("contents[i]=", lambda b, c: _assign(w, mode, cont, b, c, build))
+        add("contents[i]=", lambda b, c: _assign(w, mode, cont, b, c, build, alt, "cells"))
         add("cell_width=", cell_width)
-        add("focus_position=", lambda b, c: _set_focus_position(w, len(cont), b))
+        add("focus_position=", focus_mutator(len(cont), ("set_focus(int)", lambda i, cw: w.set_focus(i)), ("set_focus(widget)", lambda i, cw: w.set_focus(cw)),
+                                             ("focus_cell=", lambda i, cw: setattr(w, "focus_cell", cw))))
+        add("contents=", lambda b, c: _assign_all(w, cont, b))
     elif isinstance(w, urwid.Frame):
         def header(b, c):
-            w.header = None if c % 3 == 0 else build("flow", b)
-            return "None" if c % 3 == 0 else f"flow #{b}"
+            nw = None if c % 3 == 0 else build("flow", b)
+            return alt(("header=", lambda: setattr(w, "header", nw)), ("set_header", lambda: w.set_header(nw))) + (" None" if c % 3 == 0 else f" flow #{b}")
 
         def footer(b, c):
-            w.footer = None if c % 3 == 0 else build("flow", b)
-            return "None" if c % 3 == 0 else f"flow #{b}"
+            nw = None if c % 3 == 0 else build("flow", b)
+            return alt(("footer=", lambda: setattr(w, "footer", nw)), ("set_footer", lambda: w.set_footer(nw))) + (" None" if c % 3 == 0 else f" flow #{b}")
 
         def body(b, c):
-            w.body = build("box", b)
-            return f"box #{b}"
+            nw = build("box", b)
+            return alt(("body=", lambda: setattr(w, "body", nw)), ("set_body", lambda: w.set_body(nw))) + f" box #{b}"
 
         def focus(b, c):
             parts = [p for p in ("body", "header", "footer") if getattr(w, p) is not None]
-            w.focus_position = parts[b % len(parts)]
-            return w.focus_position
+            part = parts[b % len(parts)]
+            return alt(("focus_position=", lambda: setattr(w, "focus_position", part)), ("set_focus", lambda: w.set_focus(part))) + f" {part}"
 
         add("header=", header)
         add("footer=", footer)
@@ -851,32 +998,56 @@ def mutators(w, mode, ser, enc, build, shown_size=None):
         add("body.insert", insert)
         add("body.delete", delete)
         add("body[i]=", replace)
-        add("focus_position=", lambda b, c: _set_focus_position(w, len(body), b))
+        def new_body(b, c):
+            # ListBox.body = ...: a new list walker of the same class over the same item widgets (rotated by b), or,
+            # as the setter documents, a plain list of widgets (it is wrapped in a SimpleListWalker)
+            if type(body) not in (urwid.SimpleListWalker, urwid.SimpleFocusListWalker):
+                return None
+            items = list(body)
+            k = b % len(items) if items else 0
+            items = items[k:] + items[:k]
+            if c % 3 == 2:
+                w.body = items
+                return f"list rotated by {k}"
+            w.body = type(body)(items)
+            return f"{type(body).__name__} rotated by {k}"
+
+        add("focus_position=", focus_mutator(len(body)))
         add("change_focus", change_focus)
         add("shift_focus", shift_focus)
         add("make_cursor_visible", make_cursor_visible)
         add("keypress", lb_key)
         add("keypress", lb_key)
         add("mouse_event", lb_wheel)
+        add("body=", new_body)
     else:
         raise AssertionError(f"no mutator table for {w!r}")
     return M
 
 
-def _assign(w, mode, cont, b, c, build):
+def _assign(w, mode, cont, b, c, build, alt, legacy):
+    """contents[i] = (new widget, same options), or the same through the backwards-compatibility widget list
+    (Pile/Columns.widget_list, GridFlow.cells: a list of the widgets that writes itself back when modified)"""
     if not len(cont):
         return None
     i = b % len(cont)
     slot = kids(w, mode)[i][1]
-    cont[i] = (build(slot, c), cont[i][1])
-    return f"[{i}] = {slot} #{c}"
+    nw = build(slot, c)
+
+    def via_list():
+        getattr(w, legacy)[i] = nw
+
+    return alt(("contents[i]=", lambda: cont.__setitem__(i, (nw, cont[i][1]))), (f"{legacy}[i]=", via_list)) + f" [{i}] = {slot} #{c}"
 
 
-def _set_focus_position(w, n, b):
-    if not n:
+def _assign_all(w, cont, b):
+    """the writable `contents` property as a whole: the same (widget, options) items, rotated by b"""
+    if len(cont) < 2:
         return None
-    w.focus_position = b % n
-    return str(b % n)
+    k = 1 + b % (len(cont) - 1)
+    items = list(cont)
+    w.contents = items[k:] + items[:k]
+    return f"rotated by {k}"
 
 
 # ---------------------------------------------------------------------------------------------
@@ -1340,12 +1511,18 @@ class Run:
 
             def go(world):
                 w, mode, _d = live_nodes(world.root, self.mode)[n]
-                M = mutators(w, mode, ser, enc, lambda slot, k: build_spec(new_spec(slot, k, ser), enc, world.rec), shown_size)
+                spell = {}
+                M = mutators(w, mode, ser, enc, lambda slot, k: build_spec(new_spec(slot, k, ser), enc, world.rec), shown_size, spell)
                 if not M:
                     return None
                 name, fn = M[a % len(M)]
+                # the quotient chooses among the documented spellings of the operation (0, what shrinking tends to
+                # and what the committed replays have: the first one listed)
+                spell["v"] = a // len(M)
                 info["name"] = f"{type(w).__name__}.{name}"
                 r = fn(b, c)
+                if "used" in spell and r is not None:
+                    info["spelling"] = f"{type(w).__name__}.{spell['used']}"
                 return None if r is None else f"{type(w).__name__}.{name}({r})"
 
             self.trace.append(f"{ser}:mutate node {n} {type(na[n][0]).__name__} #{a}")
@@ -1363,6 +1540,8 @@ class Run:
             self.trace[-1] = f"{ser}:node {n} {ra}"
             self.instrument()
             _count(f"mut:{info['name']}")
+            if info.get("spelling", info["name"]) != info["name"]:
+                _count(f"spelling:{info['spelling']}")
             if n != 0 and (si, focus) in self.rendered and not op[0].startswith("~"):
                 self.nt = True
             return True
@@ -1697,7 +1876,25 @@ def _repair_store_checks_the_canvas_used():
     return undo
 
 
+def _repair_bargraph_segment_attributes():
+    """BarGraph.set_segment_attributes() invalidates, as set_data() and set_bar_width() do"""
+    cls = urwid.BarGraph
+    orig = cls.__dict__["set_segment_attributes"]
+
+    def set_segment_attributes(self, attlist, hatt=None, satt=None):
+        orig(self, attlist, hatt, satt)
+        self._invalidate()
+
+    cls.set_segment_attributes = set_segment_attributes
+
+    def undo():
+        cls.set_segment_attributes = orig
+
+    return undo
+
+
 _REPAIRS = {
+    "C06-bargraph-set-segment-attributes-no-invalidate": _repair_bargraph_segment_attributes,
     "C06-parent-cached-over-uncached-child-canvas": _repair_store_checks_the_canvas_used,
     "C06-edit-focus-shift-cached-at-text-level": _repair_edit_text_level,
     "C06-columns-hidden-pack-column-not-a-dependency": _repair_columns_hidden_pack,
@@ -1762,6 +1959,12 @@ def _has_uncached_widget(case):
 
 
 KNOWN = {
+    # BarGraph.set_segment_attributes() (public: new attributes / fill characters / hline and smoothing attributes of
+    # an existing graph) stores them and returns without _invalidate(): canvases cached before keep the old ones
+    "C06-bargraph-set-segment-attributes-no-invalidate": lambda sub, case, v: sub == "hist"
+    and v.clause in _DIFF
+    and any(o[0].lstrip("~") in ("mut", "again") for o in case["ops"])
+    and _caused_by("C06-bargraph-set-segment-attributes-no-invalidate", case),
     # CanvasCache.store() caches a parent canvas when each child WIDGET has some canvas in the cache; the child canvas
     # actually used may be an uncached one (it shows a no_cache / uncacheable descendant that the cached one, rendered
     # at another size or scroll position, does not show): the parent is then invalidated by nothing below that child
